@@ -143,11 +143,14 @@ def check_case(ctx, an, s, p, o):
             if sorted(map(repr, seen)) != sorted(map(repr, set(trees))):
                 problems.append(("indexed trees != trees of the object graph",
                                  len(seen), len(set(trees))))
-            it = [tree_canon(t) for t in forest]
-            nl = [tree_canon(t) for t in forest.nonlazy_iter()]
-            by_idx = [tree_canon(forest[i]) for i in range(ln)]
-            if it != by_idx or nl != by_idx:
-                problems.append(("iteration differs from indexing",))
+            try:
+                it = [tree_canon(t) for t in forest]
+                nl = [tree_canon(t) for t in forest.nonlazy_iter()]
+                by_idx = [tree_canon(forest[i]) for i in range(ln)]
+                if it != by_idx or nl != by_idx:
+                    problems.append(("iteration differs from indexing",))
+            except Exception as e:     # noqa: BLE001
+                problems.append(("iteration raises", type(e).__name__))
     for i in (ln, ln + 1, 2 * ln + 1):
         try:
             t = forest[i]
@@ -159,6 +162,23 @@ def check_case(ctx, an, s, p, o):
             pass
         except Exception as e:     # noqa: BLE001
             problems.append(("wrong exception beyond len", i, type(e).__name__))
+    # --- reading does not change the forest -----------------------------
+    # counting, indexing, iterating and get_first_tree are read accesses:
+    # the object graph and the answers are the same afterwards
+    fv2 = ForestView(forest.result)
+    if fv2.cyclic or fv2.count() != own or (
+            trees is not None and set(fv2.trees(K) or ()) != set(trees)):
+        problems.append(("forest changed by read access", own,
+                         None if fv2.cyclic else fv2.count()))
+    else:
+        try:
+            if (forest.solutions, len(forest), forest.ambiguities) != (
+                    sol, ln, amb_own if ("ambiguities",) not in
+                    [p[:1] for p in problems] else forest.ambiguities):
+                problems.append(("counts changed by read access",))
+        except Exception as e:     # noqa: BLE001
+            problems.append(("counting raises after read access",
+                             type(e).__name__))
     if own > 1 or an.count >= 2:
         st["nontrivial"] += 1
     if problems:
